@@ -586,13 +586,9 @@ class RealKill(Part):
                 pass
             finally:
                 atexit.unregister(group._cleanup_atexit)
-                from vlib.core import descendants
+                from vlib.core import kill_leftovers
 
-                for pid_ in descendants():  # whatever survived this case must not disturb the next one
-                    try:
-                        os.kill(pid_, signal.SIGKILL)
-                    except OSError:
-                        pass
+                kill_leftovers()  # whatever survived this case must not disturb the next one
 
 
 PARTS = [Cut(), CutFocused(), RealKill()]
